@@ -35,18 +35,20 @@ VARIABLES l,        \* next trace line
           rds,      \* completed range reads (for list-then-watch)
           prefixes, \* prefix id -> set of keys
           cmax,     \* highest compaction revision accepted so far
+          expiring, \* keys that are Event records (may be expired wholesale)
           viol
 
-vars == <<l, idx, ver, hv, floor, cm, base, pend, maxRet, seen, maxRev, evlog, ws, rds, prefixes, cmax, viol>>
+vars == <<l, idx, ver, hv, floor, cm, base, pend, maxRet, seen, maxRev, evlog, ws, rds, prefixes, cmax, expiring, viol>>
 
 E == Trace[l]
 Is(e) == l <= Len(Trace) /\ E.e = e
 Adv == l' = l + 1
-V(cond, name) == IF cond THEN {} ELSE {<<name, l>>}
+\* only the first failure of a monitor is recorded
+V(cond, name) == IF cond \/ (\E v \in viol : v[1] = name) THEN {} ELSE {<<name, l>>}
 
 Empty == /\ idx = [k \in KS |-> NoIdx] /\ ver = [k \in KS |-> {}] /\ hv = [k \in KS |-> {}]
          /\ floor = 0 /\ cm = 0 /\ base = 0 /\ pend = {} /\ maxRet = 0 /\ seen = {} /\ maxRev = 0
-         /\ evlog = {} /\ ws = {} /\ rds = {} /\ prefixes = << >> /\ cmax = 0
+         /\ evlog = {} /\ ws = {} /\ rds = {} /\ prefixes = << >> /\ cmax = 0 /\ expiring = {}
 
 TInit == l = 1 /\ Empty /\ viol = {}
 
@@ -54,9 +56,15 @@ TInit == l = 1 /\ Empty /\ viol = {}
 \* store reconstruction from logged values  [tag, int, int, string]
 
 IdxOf(v)  == IF v[1] = "i" THEN [rev |-> v[2], del |-> v[3] = 1] ELSE NoIdx
+\* The code marks a deletion by the VALUE of the version record; the abstract history marks it by
+\* KIND.  A version whose bytes equal the marker but whose index record (written in the same batch)
+\* carries no deletion flag is a client value: it is kept apart as STAR.
+STAR == "tombstone*"
+Unstar(v) == IF v = STAR THEN TOMB ELSE v
+AbsVal(ix, r, val) == IF val = TOMB /\ ix.rev = r /\ ~ix.del THEN STAR ELSE val
 SetRec(ix, vs, r, v) ==      \* new (idx, ver) of one key after record (k,r) now holds v
     IF r = 0 THEN <<IdxOf(v), vs>>
-    ELSE IF v[1] = "v" THEN <<ix, {x \in vs : x.rev # r} \cup {[rev |-> r, val |-> v[4]]}>>
+    ELSE IF v[1] = "v" THEN <<ix, {x \in vs : x.rev # r} \cup {[rev |-> r, val |-> AbsVal(ix, r, v[4])]}>>
     ELSE <<ix, {x \in vs : x.rev # r}>>
 
 \* apply a list of (k, r, value) to functions idx, ver
@@ -100,7 +108,7 @@ TReset ==
     /\ Is("Reset") /\ Adv
     /\ idx' = [k \in KS |-> NoIdx] /\ ver' = [k \in KS |-> {}] /\ hv' = [k \in KS |-> {}]
     /\ floor' = 0 /\ cm' = 0 /\ base' = 0 /\ pend' = {} /\ maxRet' = 0 /\ seen' = {} /\ maxRev' = 0
-    /\ evlog' = {} /\ ws' = {} /\ rds' = {} /\ prefixes' = << >> /\ cmax' = 0
+    /\ evlog' = {} /\ ws' = {} /\ rds' = {} /\ prefixes' = << >> /\ cmax' = 0 /\ expiring' = {}
     /\ UNCHANGED viol
 
 StoreOf(recs) == ApplyAll([k \in KS |-> NoIdx], [k \in KS |-> {}], recs)
@@ -110,7 +118,8 @@ TInitEv ==
     /\ LET st == StoreOf(E.store) IN
        /\ idx' = st[1] /\ ver' = st[2] /\ hv' = st[2]
     /\ base' = E.base /\ cm' = E.base /\ maxRev' = E.base
-    /\ prefixes' = E.prefixes
+    /\ prefixes' = [i \in 1..Len(E.prefixes) |-> {E.prefixes[i][j] : j \in 1..Len(E.prefixes[i])}]
+    /\ expiring' = {E.expiring[i] : i \in 1..Len(E.expiring)}
     /\ floor' = 0 /\ pend' = {} /\ maxRet' = 0 /\ seen' = {} /\ evlog' = {} /\ ws' = {} /\ rds' = {} /\ cmax' = 0
     /\ UNCHANGED viol
 
@@ -122,7 +131,7 @@ TInvoke ==
                  m |-> IF IsWrite(E.op) /\ IsLive(Latest(ver[E.k])) THEN Latest(ver[E.k]).rev ELSE 0,
                  diff |-> IF IsWrite(E.op) THEN ~Matches(E.op, E.exp, 0, ver[E.k]) ELSE FALSE,
                  rev |-> 0, unk |-> FALSE, okc |-> FALSE, at |-> l, cm0 |-> cm, fl0 |-> floor]}
-    /\ UNCHANGED <<idx, ver, hv, floor, cm, base, maxRet, seen, maxRev, evlog, ws, rds, prefixes, cmax, viol>>
+    /\ UNCHANGED <<idx, ver, hv, floor, cm, base, maxRet, seen, maxRev, evlog, ws, rds, prefixes, cmax, expiring, viol>>
 
 \* the version records (r > 0) a commit wants to put
 VerPuts(ops) == {i \in 1..Len(ops) : ops[i].kk = "obj" /\ ops[i].r > 0 /\ ops[i].o = "put" /\ ops[i].k \in KS}
@@ -135,10 +144,10 @@ CommitChecks(p, k, r, val, applied, res) ==
     \cup (IF applied /\ HasPend(p) /\ IsWrite(PendOf(p).op)
           THEN LET o == PendOf(p) IN
                V(o.k = k /\ Matches(o.op, o.exp, 0, ver[k]), "WriteCondition")
-               \cup V(IF o.op = "delete" THEN val = TOMB ELSE val = o.v, "WriteValue")
+               \cup V(IF o.op = "delete" THEN val = TOMB ELSE (val # TOMB /\ Unstar(val) = o.v), "WriteValue")
           ELSE {})
     \cup (IF applied /\ p = "retry"
-          THEN V(x # NoVer /\ x.val = val /\ idx[k] = [rev |-> x.rev, del |-> val = TOMB], "RepairCondition")
+          THEN V(x # NoVer /\ Unstar(x.val) = Unstar(val) /\ idx[k] = [rev |-> x.rev, del |-> val = TOMB], "RepairCondition")
           ELSE {})
 
 TCommit ==
@@ -147,6 +156,10 @@ TCommit ==
            recs == ObjRecs(ops, E.post)
            st == ApplyAll(idx, ver, recs)
            vp == VerPuts(ops)
+           \* abstract value of the version put i: deletion iff the index written with it is flagged
+           newIx(i) == LET js == {j \in 1..Len(ops) : ops[j].kk = "obj" /\ ops[j].k = ops[i].k /\ ops[j].r = 0 /\ ops[j].o \in {"cas", "pine", "put"}} IN
+                       IF js = {} THEN NoIdx ELSE IdxOf(ops[CHOOSE j \in js : TRUE].v)
+           AV(i) == AbsVal(newIx(i), ops[i].r, ops[i].v[4])
            special == {i \in 1..Len(ops) : ops[i].kk = "special" /\ ops[i].name = "compact"} IN
        /\ idx' = st[1] /\ ver' = st[2] /\ hv' = AddHist(hv, st[2])
        /\ floor' = IF special = {} THEN floor
@@ -154,12 +167,12 @@ TCommit ==
        /\ viol' = viol
             \cup V(applied \/ E.post = E.pre, "CommitAtomic")
             \cup V(floor' >= floor, "FloorMonotone")
-            \cup UNION {CommitChecks(p, ops[i].k, ops[i].r, ops[i].v[4], applied, res) : i \in vp}
+            \cup UNION {CommitChecks(p, ops[i].k, ops[i].r, AV(i), applied, res) : i \in vp}
             \* a new certain event below something a watcher already received
             \cup UNION {UNION { IF applied /\ res = "ok" /\ w.start > 0 /\ ops[i].r >= w.start
                                     /\ ops[i].k \in prefixes[w.prefix + 1]
                                     /\ w.last > ops[i].r
-                                THEN {<<"NoSkip", l>>} ELSE {} : w \in ws} : i \in vp}
+                                THEN V(FALSE, "NoSkip") ELSE {} : w \in ws} : i \in vp}
        /\ pend' = {IF x.p = p /\ vp # {}
                    THEN [x EXCEPT !.rev = ops[CHOOSE i \in vp : TRUE].r, !.unk = @ \/ res = "unk",
                                   !.okc = @ \/ (applied /\ res = "ok"),
@@ -169,12 +182,12 @@ TCommit ==
        /\ maxRev' = LET rs == {ops[i].r : i \in vp} \cup {maxRev} IN MaxS(rs)
        /\ evlog' = evlog \cup
             {[rev |-> ops[i].r, key |-> ops[i].k,
-              type |-> IF ops[i].v[4] = TOMB THEN EvDelete
+              type |-> IF AV(i) = TOMB THEN EvDelete
                        ELSE IF HasPend(p) /\ IsWrite(PendOf(p).op) THEN EvType(PendOf(p)) ELSE "ANYPUT",
-              val |-> IF ops[i].v[4] = TOMB THEN Latest(ver[ops[i].k]).val ELSE ops[i].v[4],
-              kvrev |-> IF ops[i].v[4] = TOMB THEN Latest(ver[ops[i].k]).rev ELSE ops[i].r]
+              val |-> IF AV(i) = TOMB THEN Unstar(Latest(ver[ops[i].k]).val) ELSE ops[i].v[4],
+              kvrev |-> IF AV(i) = TOMB THEN Latest(ver[ops[i].k]).rev ELSE ops[i].r]
              : i \in {j \in vp : applied /\ res = "ok"}}
-    /\ UNCHANGED <<cm, base, maxRet, seen, ws, rds, prefixes, cmax>>
+    /\ UNCHANGED <<cm, base, maxRet, seen, ws, rds, prefixes, cmax, expiring>>
 
 TNotify ==
     /\ Is("Notify") /\ Adv
@@ -186,13 +199,13 @@ TNotify ==
        /\ seen' = IF r > 0 THEN seen \cup {r} ELSE seen
        /\ maxRev' = IF r > maxRev THEN r ELSE maxRev
        /\ pend' = {IF x.p = p /\ x.rev = 0 /\ IsWrite(x.op) THEN [x EXCEPT !.rev = r] ELSE x : x \in pend}
-    /\ UNCHANGED <<idx, ver, hv, floor, cm, base, maxRet, evlog, ws, rds, prefixes, cmax>>
+    /\ UNCHANGED <<idx, ver, hv, floor, cm, base, maxRet, evlog, ws, rds, prefixes, cmax, expiring>>
 
 TCommitted ==
     /\ Is("Committed") /\ Adv
     /\ cm' = E.a
     /\ viol' = viol \cup V(E.a > cm, "CommittedMonotone") \cup V(E.a \in seen, "CommittedWasReported")
-    /\ UNCHANGED <<idx, ver, hv, floor, base, pend, maxRet, seen, maxRev, evlog, ws, rds, prefixes, cmax>>
+    /\ UNCHANGED <<idx, ver, hv, floor, base, pend, maxRet, seen, maxRev, evlog, ws, rds, prefixes, cmax, expiring>>
 
 TReturn ==
     /\ Is("Return") /\ Adv
@@ -204,13 +217,13 @@ TReturn ==
             \cup (IF ~succ /\ err = "" THEN V(o.diff, "FailedOnlyIfDiffered") ELSE {})
             \cup (IF ~succ /\ err \in {"", "err", "drift"} /\ o.rev > 0
                   THEN V(\A v \in hv[k] : v.rev # o.rev, "FailedLeavesKey") ELSE {})
-            \cup (IF succ THEN V(o.okc /\ \E v \in hv[k] : v.rev = o.rev /\ (IF o.op = "delete" THEN v.val = TOMB ELSE v.val = o.v),
+            \cup (IF succ THEN V(o.okc /\ \E v \in hv[k] : v.rev = o.rev /\ (IF o.op = "delete" THEN v.val = TOMB ELSE (v.val # TOMB /\ Unstar(v.val) = o.v)),
                                  "SuccessMeansWritten") ELSE {})
             \cup (IF o.unk THEN V(~succ /\ err = "unk", "UnknownIsError") ELSE {})
             \cup (IF succ /\ o.op = "delete" THEN V(E.kvrev > 0 /\ E.kvrev < o.rev, "DeleteReturnsPrev") ELSE {})
        /\ maxRet' = IF o.rev > maxRet THEN o.rev ELSE maxRet
        /\ pend' = pend \ {o}
-    /\ UNCHANGED <<idx, ver, hv, floor, cm, base, seen, maxRev, evlog, ws, rds, prefixes, cmax>>
+    /\ UNCHANGED <<idx, ver, hv, floor, cm, base, seen, maxRev, evlog, ws, rds, prefixes, cmax, expiring>>
 
 \* ---- watch events
 WOf(w) == CHOOSE x \in ws : x.w = w
@@ -221,12 +234,12 @@ TWatchInvoke ==
     /\ ws' = {x \in ws : x.w # E.w} \cup
              {[w |-> E.w, prefix |-> E.prefix, start |-> E.start, ok |-> TRUE, returned |-> FALSE,
                dl |-> << >>, last |-> 0, closed |-> FALSE]}
-    /\ UNCHANGED <<idx, ver, hv, floor, cm, base, pend, maxRet, seen, maxRev, evlog, rds, prefixes, cmax, viol>>
+    /\ UNCHANGED <<idx, ver, hv, floor, cm, base, pend, maxRet, seen, maxRev, evlog, rds, prefixes, cmax, expiring, viol>>
 
 TWatchReturn ==
     /\ Is("WatchReturn") /\ Adv
     /\ ws' = {IF x.w = E.w THEN [x EXCEPT !.ok = E.ok, !.returned = TRUE] ELSE x : x \in ws}
-    /\ UNCHANGED <<idx, ver, hv, floor, cm, base, pend, maxRet, seen, maxRev, evlog, rds, prefixes, cmax, viol>>
+    /\ UNCHANGED <<idx, ver, hv, floor, cm, base, pend, maxRet, seen, maxRev, evlog, rds, prefixes, cmax, expiring, viol>>
 
 \* events arrive as [type, key, rev, val, kvrev]
 EvRec(t) == [type |-> t[1], key |-> t[2], rev |-> t[3], val |-> t[4], kvrev |-> t[5]]
@@ -256,12 +269,13 @@ ApplyEvents(m, evs) ==
     LET RECURSIVE A(_, _)
         A(mm, s) == IF s = << >> THEN mm
                     ELSE LET e == Head(s) IN
-                         A([mm EXCEPT ![e.key] = IF e.type = EvDelete THEN NoVer ELSE [rev |-> e.rev, val |-> e.val]], Tail(s))
+                         A([mm EXCEPT ![e.key] = IF e.type = EvDelete THEN NoVer ELSE [rev |-> e.rev, val |-> Unstar(e.val)]], Tail(s))
     IN A(m, evs)
 KvMap(kvs) == [k \in KS |-> IF \E i \in 1..Len(kvs) : kvs[i][1] = k
                             THEN LET i == CHOOSE i \in 1..Len(kvs) : kvs[i][1] = k IN [rev |-> kvs[i][2], val |-> kvs[i][3]]
                             ELSE NoVer]
-SnapAt(h, ks, R) == [k \in KS |-> IF k \in ks /\ IsLive(NewestLE(h[k], R)) THEN NewestLE(h[k], R) ELSE NoVer]
+SnapAt(h, ks, R) == [k \in KS |-> IF k \in ks /\ IsLive(NewestLE(h[k], R))
+                                  THEN [rev |-> NewestLE(h[k], R).rev, val |-> Unstar(NewestLE(h[k], R).val)] ELSE NoVer]
 ListWatchChecks(w, dl) ==
     IF dl = << >> \/ ~w.ok THEN {}
     ELSE LET R2 == dl[Len(dl)].rev IN
@@ -279,12 +293,114 @@ TRecv ==
        /\ viol' = viol \cup RecvAll(w, evs, w.last) \cup V(~w.closed, "NothingAfterClose")
                        \cup ListWatchChecks(w, dl2)
        /\ ws' = (ws \ {w}) \cup {[w EXCEPT !.dl = dl2, !.last = IF evs = << >> THEN @ ELSE evs[Len(evs)][3]]}
-    /\ UNCHANGED <<idx, ver, hv, floor, cm, base, pend, maxRet, seen, maxRev, evlog, rds, prefixes, cmax>>
+    /\ UNCHANGED <<idx, ver, hv, floor, cm, base, pend, maxRet, seen, maxRev, evlog, rds, prefixes, cmax, expiring>>
 
 TClosed ==
     /\ Is("Closed") /\ Adv
     /\ ws' = {IF x.w = E.w THEN [x EXCEPT !.closed = TRUE] ELSE x : x \in ws}
-    /\ UNCHANGED <<idx, ver, hv, floor, cm, base, pend, maxRet, seen, maxRev, evlog, rds, prefixes, cmax, viol>>
+    /\ UNCHANGED <<idx, ver, hv, floor, cm, base, pend, maxRet, seen, maxRev, evlog, rds, prefixes, cmax, expiring, viol>>
+
+\* ---- reads (point, range, count, streamed range)
+\* RInvoke: [p, op, k, lo, hi, rev, limit]; RReturn: [p, hdr, kvs (seq of [k, rev, val]), more, count, err, brevs, terms]
+TRInvoke ==
+    /\ Is("RInvoke") /\ Adv
+    /\ pend' = {x \in pend : x.p # E.p} \cup
+               {[p |-> E.p, i |-> 0, op |-> E.op, k |-> E.k, exp |-> 0, v |-> "-", floorRev |-> 0, m |-> 0, diff |-> FALSE,
+                 rev |-> E.rev, unk |-> FALSE, okc |-> FALSE, at |-> l, cm0 |-> cm, fl0 |-> floor,
+                 lo |-> E.lo, hi |-> E.hi, limit |-> E.limit, wr0 |-> maxRev, pfx |-> E.pfx]}
+    /\ UNCHANGED <<idx, ver, hv, floor, cm, base, maxRet, seen, maxRev, evlog, ws, rds, prefixes, cmax, expiring, viol>>
+
+KvTuples(kvs) == [i \in 1..Len(kvs) |-> <<kvs[i].k, kvs[i].rev, Unstar(kvs[i].val)>>]
+KvSet(kvs) == {kvs[i] : i \in 1..Len(kvs)}
+\* does the expected result involve a client value equal to the reserved marker?  (known finding D5)
+TouchesStar(R, lo, hi) == \E k \in KS : lo <= k /\ k < hi /\ NewestLE(hv[k], R).val = STAR
+
+ReadChecks(o, e) ==
+    LET R == IF o.rev = 0 THEN e.hdr ELSE o.rev
+        ok == e.err = ""
+        quiet == o.wr0 = maxRev       \* no write became visible while the read was in flight
+    IN
+    CASE o.op = "get" ->
+            (IF ok /\ (o.rev = 0 \/ (o.rev <= o.cm0 /\ o.rev >= floor)) /\ (o.rev > 0 \/ quiet)
+             THEN LET ref == PointRef(hv, o.k, o.rev)
+                      got == IF Len(e.kvs) = 0 THEN [found |-> FALSE, rev |-> 0, val |-> "-"]
+                             ELSE [found |-> TRUE, rev |-> e.kvs[1][2], val |-> e.kvs[1][3]]
+                      exp == [ref EXCEPT !.val = Unstar(@)] IN
+                  IF NewestLE(hv[o.k], IF o.rev = 0 THEN maxRev ELSE o.rev).val = STAR
+                  THEN V(got = exp, "TombValueReadable")
+                  ELSE V(got = exp, "ReadIsSnapshot")
+             ELSE {})
+            \cup (IF ok /\ Len(e.kvs) > 0 THEN V(e.hdr >= e.kvs[1][2], "HeaderCoversData") ELSE {})
+      [] o.op \in {"list", "stream"} ->
+            (IF R < o.fl0 THEN V(~ok, "BelowFloorRefused") ELSE {})
+            \cup (IF R >= floor /\ R <= cm /\ R > 0 THEN V(ok, "ReadableServed") ELSE {})
+            \cup (IF ok /\ R >= floor /\ R <= cm
+                  THEN LET ref == RangeRef(hv, KS, R, o.lo, o.hi, o.limit)
+                           exp == KvTuples(ref.kvs) IN
+                       (IF TouchesStar(R, o.lo, o.hi)
+                        THEN V(IF o.op = "list" THEN e.kvs = exp /\ e.more = ref.more ELSE KvSet(e.kvs) = KvSet(exp), "TombValueReadable")
+                        ELSE IF o.op = "list"
+                             THEN V(e.kvs = exp, "ReadIsSnapshot") \cup V(e.more = ref.more, "MoreFlag")
+                             ELSE V(KvSet(e.kvs) = KvSet(exp) /\ Len(e.kvs) = Len(exp), "StreamIsSnapshot"))
+                  ELSE {})
+            \cup (IF ok THEN V(\A i \in 1..Len(e.kvs) : e.hdr >= e.kvs[i][2] \/ o.op = "stream", "HeaderCoversData") ELSE {})
+            \cup (IF o.op = "stream"
+                  THEN V(e.terms = 1, "StreamOneTerminator")
+                       \cup V(\A i \in 1..Len(e.brevs) : e.brevs[i] = R, "StreamBatchRevision")
+                  ELSE {})
+      [] o.op = "count" ->
+            (IF ok /\ e.hdr >= floor /\ quiet
+             THEN V(e.count = Len(RangeRef(hv, KS, e.hdr, o.lo, o.hi, 0).kvs),
+                    IF TouchesStar(e.hdr, o.lo, o.hi) THEN "TombValueReadable" ELSE "CountIsSnapshot") ELSE {})
+      [] OTHER -> {}
+
+TRReturn ==
+    /\ Is("RReturn") /\ Adv
+    /\ HasPend(E.p)
+    /\ LET o == PendOf(E.p) IN
+       /\ viol' = viol \cup ReadChecks(o, E)
+       /\ pend' = pend \ {o}
+       /\ rds' = IF o.op = "list" /\ E.err = "" /\ o.limit = 0 /\ o.pfx >= 0
+                 THEN rds \cup {[prefix |-> o.pfx, hdr |-> IF o.rev = 0 THEN E.hdr ELSE o.rev, kvs |-> E.kvs, full |-> TRUE]}
+                 ELSE rds
+    /\ UNCHANGED <<idx, ver, hv, floor, cm, base, maxRet, seen, maxRev, evlog, ws, prefixes, cmax, expiring>>
+
+\* compaction request / response
+TCInvoke ==
+    /\ Is("CInvoke") /\ Adv
+    /\ UNCHANGED <<idx, ver, hv, floor, cm, base, pend, maxRet, seen, maxRev, evlog, ws, rds, prefixes, cmax, expiring, viol>>
+TCReturn ==
+    /\ Is("CReturn") /\ Adv
+    /\ cmax' = IF E.err = "" /\ E.hdr > cmax THEN E.hdr ELSE cmax
+    /\ viol' = viol \cup (IF E.err = "" THEN V(floor >= E.hdr \/ floor >= cmax, "FloorAccepted") ELSE {})
+                    \cup (IF E.err = "" THEN V(E.hdr <= cm, "CompactClampCommitted") ELSE {})
+                    \cup (IF E.err = "" /\ E.minunc > 0 THEN V(E.hdr < E.minunc, "CompactClamp") ELSE {})
+    /\ UNCHANGED <<idx, ver, hv, floor, cm, base, pend, maxRet, seen, maxRev, evlog, ws, rds, prefixes, expiring>>
+
+\* a compaction delete: Del / DelCur with observed post value
+DelChecks(k, r, applied) ==
+    IF ~applied THEN {}
+    ELSE IF r = 0
+    THEN V(idx[k] = NoIdx \/ idx[k].del \/ k \in expiring, "CompactionDeletesLiveIndex")
+    ELSE LET R0 == floor IN
+         \* removing version r must not change any read at or above the accepted floor
+         V(k \in expiring \/ (\E x \in ver[k] : x.val = STAR) \/
+           \A R2 \in {x.rev : x \in hv[k]} \cup {R0, maxRev} :
+               R2 >= R0 => NewestLE({x \in ver[k] : x.rev # r}, R2).rev = NewestLE(ver[k], R2).rev
+                           \/ (~IsLive(NewestLE(ver[k], R2)) /\ ~IsLive(NewestLE({x \in ver[k] : x.rev # r}, R2))),
+           "CompactionPreservesReads")
+TDel ==
+    /\ (Is("Del") \/ Is("DelCur")) /\ Adv
+    /\ LET k == E.k  r == E.r  obj == E.kk = "obj" /\ k \in KS
+           applied == E.res = "ok" /\ E.post[1] = "n" IN
+       /\ viol' = viol \cup (IF obj THEN DelChecks(k, r, applied) ELSE {})
+                       \cup (IF obj /\ applied /\ r > 0 /\ (\E x \in ver[k] : x.rev = r /\ x.val = STAR)
+                             THEN V(FALSE, "TombValueReadable") ELSE {})
+       /\ IF obj /\ E.res = "ok"
+          THEN LET nw == SetRec(idx[k], ver[k], r, E.post) IN
+               /\ idx' = [idx EXCEPT ![k] = nw[1]] /\ ver' = [ver EXCEPT ![k] = nw[2]]
+          ELSE UNCHANGED <<idx, ver>>
+    /\ UNCHANGED <<hv, floor, cm, base, pend, maxRet, seen, maxRev, evlog, ws, rds, prefixes, cmax, expiring>>
 
 \* ---- quiescence: everything returned, sequencer and repair loop idle
 TQuiesce ==
@@ -303,17 +419,18 @@ TQuiesce ==
                             THEN V(ApplyEvents(SnapAt(hv, KS, base), w.dl) = SnapAt(hv, KS, maxRev), "Converged")
                             ELSE {} : w \in open }
                ELSE {})
-    /\ UNCHANGED <<idx, ver, hv, floor, cm, base, pend, maxRet, seen, maxRev, evlog, ws, rds, prefixes, cmax>>
+    /\ UNCHANGED <<idx, ver, hv, floor, cm, base, pend, maxRet, seen, maxRev, evlog, ws, rds, prefixes, cmax, expiring>>
 
 \* events that carry no obligation for the monitors of this module
 Skippable == {"Deal", "CacheAdd", "Flush", "HubSlow", "HubDelete", "Subscribed", "CacheRead", "WatchClosing",
               "RetryDeal", "Get", "IterOpen", "IterItem", "Die", "Note"}
 TSkip ==
     /\ l <= Len(Trace) /\ E.e \in Skippable /\ Adv
-    /\ UNCHANGED <<idx, ver, hv, floor, cm, base, pend, maxRet, seen, maxRev, evlog, ws, rds, prefixes, cmax, viol>>
+    /\ UNCHANGED <<idx, ver, hv, floor, cm, base, pend, maxRet, seen, maxRev, evlog, ws, rds, prefixes, cmax, expiring, viol>>
 
 TNext == TReset \/ TInitEv \/ TInvoke \/ TCommit \/ TNotify \/ TCommitted \/ TReturn
          \/ TWatchInvoke \/ TWatchReturn \/ TRecv \/ TClosed \/ TQuiesce \/ TSkip
+         \/ TRInvoke \/ TRReturn \/ TCInvoke \/ TCReturn \/ TDel
 
 TSpec == TInit /\ [][TNext]_vars
 
@@ -332,7 +449,8 @@ M_FailedOnlyIfDiffered  == NoViol("FailedOnlyIfDiffered")
 M_FailedLeavesKey       == NoViol("FailedLeavesKey")
 M_SuccessMeansWritten   == NoViol("SuccessMeansWritten")
 M_DeleteReturnsPrev     == NoViol("DeleteReturnsPrev")
-M_IndexAgrees           == \A k \in KS : IndexAgreesK(idx[k], ver[k])
+\* (keys that ever held a client value equal to the deletion marker are judged by TombValueReadable)
+M_IndexAgrees           == \A k \in KS : IndexAgreesK(idx[k], ver[k]) \/ (\E x \in hv[k] : x.val = STAR)
 M_UniqueRevision        == NoViol("UniqueRevision")
 M_RealTimeOrder         == NoViol("RealTimeOrder")
 M_HeaderCoversData      == NoViol("HeaderCoversData")
@@ -352,4 +470,18 @@ M_NoSkip                == NoViol("NoSkip")
 M_NothingAfterClose     == NoViol("NothingAfterClose")
 M_CompleteAtQuiescence  == NoViol("CompleteAtQuiescence")
 M_ListWatchAgree        == NoViol("ListWatchAgree")
+M_ReadIsSnapshot        == NoViol("ReadIsSnapshot")
+M_MoreFlag              == NoViol("MoreFlag")
+M_CountIsSnapshot       == NoViol("CountIsSnapshot")
+M_StreamIsSnapshot      == NoViol("StreamIsSnapshot")
+M_StreamOneTerminator   == NoViol("StreamOneTerminator")
+M_StreamBatchRevision   == NoViol("StreamBatchRevision")
+M_ReadableServed        == NoViol("ReadableServed")
+M_TombValueReadable     == NoViol("TombValueReadable")
+M_BelowFloorRefused     == NoViol("BelowFloorRefused")
+M_FloorAccepted         == NoViol("FloorAccepted")
+M_CompactClamp          == NoViol("CompactClamp")
+M_CompactClampCommitted == NoViol("CompactClampCommitted")
+M_CompactionPreservesReads == NoViol("CompactionPreservesReads")
+M_CompactionDeletesLiveIndex == NoViol("CompactionDeletesLiveIndex")
 =============================================================================
